@@ -26,9 +26,11 @@ from mxlpy.symbolic import to_symbolic_model
 from mxlpy.types import IntegrationFailure, Result
 
 if TYPE_CHECKING:
+    from collections.abc import Iterable
+
     from mxlpy.integrators import IntegratorProtocol, IntegratorType
     from mxlpy.model import Model
-    from mxlpy.types import ArrayLike
+    from mxlpy.types import ArrayLike, Rhs
 
 _LOGGER = logging.getLogger(__name__)
 
@@ -138,8 +140,22 @@ class Simulator:
                 _LOGGER.warning(str(e), stacklevel=2)
 
         y0 = self.y0
+        rhs: Rhs = self.model
+        if (shift := self._time_shift) is not None and shift != 0:
+            # The integrator's own clock starts at 0 again: a model that reads
+            # `time` has to see the absolute time
+            model = self.model
+
+            def rhs(t: float, x: Iterable[float]) -> tuple[float, ...]:
+                return model(t + shift, x)
+
+            if (_jac := jac_fn) is not None:
+
+                def jac_fn(t: float, x: ArrayLike) -> ArrayLike:
+                    return _jac(t + shift, x)
+
         self.integrator = self._integrator_type(
-            self.model,
+            rhs,
             tuple(y0[k] for k in self.model.get_variable_names()),
             jac_fn,
         )
